@@ -1,6 +1,6 @@
 """Independent splitter of a character stream into top-level XML elements.
 
-A small scanner (no ElementTree): tracks processing instructions, comments, quoted attribute
+A small scanner (no ElementTree): tracks processing instructions, comments, CDATA sections, quoted attribute
 values and element depth.  Returns complete top-level elements and the unconsumed tail.
 """
 from __future__ import annotations
@@ -44,6 +44,12 @@ def split_stream(text: str):
                 break
             if depth == 0:
                 last_end = j + 3
+            i = j + 3
+            continue
+        if text.startswith("<![CDATA[", i):
+            j = text.find("]]>", i + 9)
+            if j < 0:
+                break
             i = j + 3
             continue
         # a tag: find its end, honouring quotes
